@@ -127,6 +127,7 @@ def run_history(ctx, rnd, family, nsteps, where):
         log = []
         nontrivial = False
         recovered_before = False
+        recov_mf_variants = set()
         for i in range(nsteps):
             step = ["start"] if i == 0 else gen_step(rnd, world, past)
             if i:
@@ -147,8 +148,12 @@ def run_history(ctx, rnd, family, nsteps, where):
             same = (key == exp) if key[0] == "v" else (exp[0] == "e" and key[1] == exp[1])
             if not same:
                 mech = "stale-result-after-" + step[0]
-                if (family in ("guarded", "mix") and step[0] in ("edit", "revert") and step[1] == "maybe_fail"
-                        and recovered_before):
+                cur_mf = hist.STATE["maybe_fail"]["variant"]
+                replayed = any(l["result"] == list(key)[:2] for l in log[:-1])
+                if (family in ("guarded", "mix") and recovered_before and step[0] in ("edit", "revert")
+                        and (step[1] == "maybe_fail" or (cur_mf not in recov_mf_variants and replayed))):
+                    # (also when the stale recovery resurfaces later, e.g. when recover is reverted to the body under which
+                    # the recovery was recorded while maybe_fail has been edited in between)
                     # catch() cached "expr failed -> recover(error)" under a key that does not depend on the
                     # code of the tasks beneath expr; editing the failing task does not invalidate it
                     mech = "catch-caches-recovery-irrespective-of-guarded-subtree-code"
@@ -159,6 +164,7 @@ def run_history(ctx, rnd, family, nsteps, where):
                 break
             if any(n == "recover" for n, _ in calls):
                 recovered_before = True
+                recov_mf_variants.add(hist.STATE["maybe_fail"]["variant"])
         ctx.ev()
         if nontrivial:
             ctx.nontrivial([family, [l["step"] for l in log], cfg])
